@@ -52,8 +52,9 @@ ASSUMPTIONS = [
     "(type, settings, quads) and patches without faces are ignored (the statement fixes neither the order of patches "
     "nor the fate of a patch whose faces were all deleted)",
     "a vertex 'belongs to' the operations whose block lists it (Block.vertices of the assembled mesh); the moved "
-    "target is applied with Vertex.move_to, so back-ported coordinates are copies: tolerance 1e-12 + 4 ulp of the "
-    "coordinate (a third of the models sit 1e3 .. 4.2e6 from the origin)",
+    "target is applied in one of the ways callers use (move_to with a list, move_to with a work array that is "
+    "refilled afterwards, translate by the difference - modelled with the same arithmetic -, assignment of single "
+    "coordinates), so back-ported coordinates are copies: tolerance 1e-12 + 4 ulp of the coordinate (a third of the models sit 1e3 .. 4.2e6 from the origin)",
     "a move changes each chosen coordinate by 0 or by >= 1e-5 (100 x TOL) and at most 0.15 x the smallest cell width, "
     "over three decades; written coordinates are compared with the model at 1e-8 + 4 ulp (8 printed decimals)",
     "all chops are count-only, so the result of grading does not depend on edge lengths or on propagation order; "
@@ -69,6 +70,7 @@ GEOMETRY = {"geo": ["type sphere", "origin (0 0 0)", "radius 50"]}
 MOVE_FRACTION = 0.15  # of the smallest lattice width, per axis, measured from the corner's ORIGINAL position
 MOVE_DECADES = [1.0, 1e-2, 1e-4]  # a move may also be a small correction: MOVE_FRACTION x this
 MOVE_MIN = 1e-5  # a non-zero displacement component is at least 100 x TOL: distinct vertex, visible in 8 decimals
+MOVE_MANNERS = ["move_to-list", "move_to-buffer", "translate", "components"]
 AXIS_MASKS = [[1, 1, 1], [1, 0, 0], [0, 1, 0], [0, 0, 1]]  # which coordinates a move changes
 EPS = 2.3e-16
 ARC_FRACTION = 0.5  # arc control point offset: larger than jitter + move so the three points never line up
@@ -202,7 +204,8 @@ def history(draw, chops: str = "all", modify: bool = False, max_steps: int = 12)
         elif kind == "move":
             picks = [
                 [draw(small), draw(st.integers(0, 7)), [draw(st.floats(-1.0, 1.0)) for _ in range(3)],
-                 draw(st.integers(0, len(MOVE_DECADES) - 1)), draw(st.integers(0, len(AXIS_MASKS) - 1))]
+                 draw(st.integers(0, len(MOVE_DECADES) - 1)), draw(st.integers(0, len(AXIS_MASKS) - 1)),
+                 draw(st.integers(0, len(MOVE_MANNERS) - 1))]
                 for _ in range(draw(st.integers(1, 3)))
             ]
             program.append(["move", picks])
@@ -255,7 +258,7 @@ def sized_history(draw):
                      "proj_side": None, "proj_points": False, "proj_corner": None})
     move = st.lists(
         st.tuples(st.integers(0, 5), st.integers(0, 7), st.lists(st.floats(-1.0, 1.0), min_size=3, max_size=3),
-                  st.just(0), st.integers(0, len(AXIS_MASKS) - 1)).map(list),
+                  st.just(0), st.integers(0, len(AXIS_MASKS) - 1), st.integers(0, len(MOVE_MANNERS) - 1)).map(list),
         min_size=1, max_size=3)
     program: List[list] = [["add", 0, 1] for _ in range(n_ops)]
     program += [["write", draw(st.booleans())], ["move", draw(move)], ["write", draw(st.booleans())]]
@@ -420,7 +423,7 @@ class Model:
                 mesh.modify_patch(name, kind, list(settings))
         for (i, corner), target in self.pending.items():
             if i in alive:
-                mesh.blocks[alive.index(i)].vertices[corner].move_to(target)
+                mesh.blocks[alive.index(i)].vertices[corner].move_to(target.tolist())
         return mesh
 
 
@@ -485,6 +488,7 @@ class Run:
         self.judged = 0
         self.nontrivial = False
         self.small_move_pending = False
+        self.buffer = np.zeros(3)  # the caller's work array for move_to
         self.last_counts: Optional[list] = None  # cell counts of the hex entries at the previous judged write
 
     # ---- facts attached to every violation
@@ -613,6 +617,7 @@ class Run:
         for pick in picks:
             k, corner, frac = pick[:3]
             decade, mask = (pick[3], pick[4]) if len(pick) > 3 else (0, 0)
+            manner = MOVE_MANNERS[pick[5]] if len(pick) > 5 else "move_to-list"
             i = alive[k % len(alive)]
             self.resolved.append([i, corner])
             vertex = blocks[alive.index(i)].vertices[corner]
@@ -620,8 +625,16 @@ class Run:
                                   f"vertex of operation {i} corner {corner}")
             disp = MOVE_FRACTION * MOVE_DECADES[decade] * m.minw * np.array(frac, dtype=float) * np.array(AXIS_MASKS[mask])
             disp = np.where((disp != 0) & (np.abs(disp) < MOVE_MIN), np.copysign(MOVE_MIN, disp), disp)
+            current = np.array(m.live_pos(i, corner), dtype=float)
             target = m.orig[i][corner] + disp
-            step = np.abs(target - m.live_pos(i, corner))
+            if manner == "translate":
+                # the same arithmetic as Point.translate (position += displacement), so the model is bit-exact
+                target = current.copy()
+                target += m.orig[i][corner] + disp - current
+            elif manner == "components":
+                # only the chosen coordinates are assigned, the others keep their current value
+                target = np.where(np.array(AXIS_MASKS[mask]) == 1, target, current)
+            step = np.abs(target - current)
             if step.max() >= MOVE_MIN and np.all(step <= 1e-8 + 1e-5 * np.abs(target)):
                 # every component changes by less than 1e-5 of its value (numpy's default 'close'), yet it is a real move
                 self.features.add("moved-less-than-1e-5-of-coordinate")
@@ -630,8 +643,22 @@ class Run:
             for bi, block in enumerate(blocks):
                 for c, v in enumerate(block.vertices):
                     if v is vertex:
-                        m.pending[(alive[bi], c)] = target
-            self.lib("move_to", vertex.move_to, target)
+                        m.pending[(alive[bi], c)] = target.copy()
+            # the ways callers move a vertex (tests, examples/): the caller's own data stays the caller's
+            if manner == "move_to-list":
+                self.lib("move_to", vertex.move_to, target.tolist())
+            elif manner == "move_to-buffer":
+                self.buffer[:] = target  # one work array, refilled for every vertex
+                self.lib("move_to", vertex.move_to, self.buffer)
+            elif manner == "translate":
+                self.lib("translate", vertex.translate, m.orig[i][corner] + disp - current)
+            else:
+                for a in range(3):
+                    if AXIS_MASKS[mask][a]:
+                        vertex.position[a] = float(target[a])
+            self.ctx.label("move:" + manner)
+        # ... and is used for something else afterwards
+        self.buffer[:] = m.orig[0][0] - 7.0 * m.minw
         self.features.add("moved")
         return True
 
